@@ -53,6 +53,7 @@ Section ValueInd.
     | VXml k a o => HScalar (VXml k a o) eq_refl
     | VDuration d => HScalar (VDuration d) eq_refl
     | VPeriod d => HScalar (VPeriod d) eq_refl
+    | VStd k a => HScalar (VStd k a) eq_refl
     | VEnum c m => HScalar (VEnum c m) eq_refl
     end.
 End ValueInd.
